@@ -28,6 +28,9 @@ pub const ALPHABET: &[(&str, &str)] = &[
     ("empty", ""),
     // non-ASCII: BMP char and surrogate pair in a comment and in a string, stray `é` outside
     ("unicode", "// é😀\ntoken A='😀é';\nstart s;\ns: A é '😀é';\n"),
+    // valid grammar whose rule line ends in multi-byte symbols (positions past the line end must clamp in
+    // UTF-16 units, not bytes)
+    ("unicode-valid", "token A='€' B='→' D;\nstart file;\nfile: '€' '→' D;\n"),
     ("unterminated-string", "token A='a;\nstart s;\ns: A;\n"),
     ("unterminated-comment", "token A;\nstart s;\ns: A; /* x\n"),
     ("crlf", "token A;\r\nstart s;\r\ns: A x;\r\n"),
